@@ -589,6 +589,9 @@ fn datasets() -> Vec<DataSet> {
         DataSet { name: "raw-short+tail", bytes: { let mut b = crate::refs::builder::build(&[crate::refs::builder::Plan::Fixed(vec![crate::refs::builder::Tok::Lit(b'a'), crate::refs::builder::Tok::Lit(b'b')])]); b.extend_from_slice(&[0x55; 24]); b }, dict: dict.clone() },
         // gzip with the minimal 10-byte header
         DataSet { name: "gzip-plain", bytes: mk(Wrap::Gzip, None, None), dict: dict.clone() },
+        // sync markers everywhere: two empty stored blocks, a final stored block "hi", trailing marker-like bytes. Fed a
+        // byte or two at a time (or primed) the bit buffer holds whole bytes of a marker when inflateSync starts looking
+        DataSet { name: "raw-markers", bytes: vec![0x00, 0x00, 0x00, 0xff, 0xff, 0x00, 0x00, 0x00, 0xff, 0xff, 0x01, 0x02, 0x00, 0xfd, 0xff, b'h', b'i', 0x00, 0x00, 0xff, 0xff, 0x00], dict: dict.clone() },
         DataSet { name: "empty", bytes: vec![], dict },
     ]
 }
@@ -622,6 +625,19 @@ fn inflate_alphabet_tiny() -> Vec<IOp> {
         IOp::PrimeData(16),
         IOp::Reset,
         IOp::Copy,
+    ]
+}
+
+fn inflate_alphabet_micro() -> Vec<IOp> {
+    vec![
+        IOp::Inflate { flush: Z_NO_FLUSH, inn: 1, room: AMPLE },
+        IOp::Inflate { flush: Z_NO_FLUSH, inn: 2, room: AMPLE },
+        IOp::Inflate { flush: Z_NO_FLUSH, inn: 3, room: AMPLE },
+        IOp::Inflate { flush: Z_NO_FLUSH, inn: usize::MAX, room: AMPLE },
+        IOp::PrimeData(8),
+        IOp::PrimeData(16),
+        IOp::Sync,
+        IOp::Reset,
     ]
 }
 
@@ -665,12 +681,15 @@ fn inflate_side(ctx: &mut Ctx) {
     let full = inflate_alphabet(true);
     let small = inflate_alphabet(false);
     let tiny = inflate_alphabet_tiny();
+    let micro = inflate_alphabet_micro();
     let inits: Vec<i32> = vec![15, -15, 31, 47, 0, -8, 8, 7, 16, 48, -16, 32];
     for ds in &sets {
         for (ii, &wb) in inits.iter().enumerate() {
             // the matching init mode gets the deepest exploration
             let matching = matches!((ds.name, wb), ("zlib", 15) | ("zlib", 47) | ("gzip+header", 31) | ("gzip+header", 47) | ("raw", -15) | ("corrupt-zlib", 15) | ("zlib+fdict", 15) | ("empty", 47) | ("raw-too-far", -15) | ("raw-long", -15) | ("raw-short+tail", -15) | ("gzip-plain", 31));
-            let plan: Vec<(&Vec<IOp>, usize)> = if matching {
+            let plan: Vec<(&Vec<IOp>, usize)> = if ds.name == "raw-markers" {
+                if wb == -15 { vec![(&micro, if quick { 5 } else { 6 }), (&small, 2)] } else { vec![] }
+            } else if matching {
                 if quick {
                     vec![(&small, 3), (&full, 2), (&tiny, if ds.name.starts_with("gzip") { 5 } else { 4 })]
                 } else {
